@@ -2,6 +2,7 @@ package world
 
 import (
 	"fmt"
+	"os"
 	"runtime"
 	"sort"
 	"strings"
@@ -62,6 +63,7 @@ type RunOpts struct {
 	Tier      string
 	KeepTrace bool
 	KeepTape  bool
+	Real      bool // calibration world (real net/http, free-running)
 }
 
 // RunOne executes one simulated run of a property inside a fresh bubble.
@@ -79,7 +81,7 @@ func RunOne(t *testing.T, prop *Prop, tape *core.Tape, opts RunOpts) (res *RunRe
 						Msg:   "goroutines remained blocked after the run: " + firstLines(msg, 12),
 					})
 				} else if res.Inconclusive == "" && len(res.Violations) == 0 {
-					res.Inconclusive = "leftover goroutines at bubble end: " + firstLines(msg, 6)
+					res.Inconclusive = "leftover goroutines at bubble end: " + firstLines(msg, 60)
 				}
 				return
 			}
@@ -97,9 +99,24 @@ func RunOne(t *testing.T, prop *Prop, tape *core.Tape, opts RunOpts) (res *RunRe
 			s.MaxSteps = prop.MaxSteps
 		}
 		sc := prop.Gen(tape, opts.Tier)
-		w := NewWorld(s, sc)
+		if opts.Real {
+			s.Free = true
+		}
+		w := newWorld(s, sc, opts.Real)
 		w.Start()
-		st := s.Run()
+		var st core.Status
+		if opts.Real {
+			st = s.RunFree(300 * time.Second)
+			w.real.close()
+			time.Sleep(60 * time.Second) // fake: lets sleeping handlers of abandoned calls finish
+			synctest.Wait()
+			if os.Getenv("VERIF_DEBUG_STACKS") != "" {
+				buf := make([]byte, 1<<20)
+				fmt.Fprintf(os.Stderr, "%s\n", buf[:runtime.Stack(buf, true)])
+			}
+		} else {
+			st = s.Run()
+		}
 		res.Status = st.String()
 		res.Steps, res.Branching = s.Steps, s.Branching
 		res.Hash = fmt.Sprintf("%016x", s.Hash)
@@ -281,3 +298,19 @@ func (w *World) describe() any {
 }
 
 var _ = time.Now
+
+// transportLimit reports calls whose outcome was decided by a limit of the
+// (modelled) HTTP transport rather than by the library: HTTP/1.1 cannot carry
+// a trailer block beyond 4 KiB. Oracles skip such calls and count them.
+func transportLimit(o *CallObs, r *RunResult) bool {
+	if ex := o.Call.Exchange(); ex != nil && ex.TrailerOverflow {
+		r.Probes["skipped_http1_trailer_overflow"]++
+		return true
+	}
+	if o.Call.Exchange() == nil && o.Final != nil && strings.Contains(o.Final.Error(), "suspiciously long trailer") {
+		// calibration world: the real HTTP/1.1 client hit the same limit
+		r.Probes["skipped_http1_trailer_overflow"]++
+		return true
+	}
+	return false
+}
